@@ -255,6 +255,7 @@ class Engine:
         self.models = models or {}
         self.max_paths = max_paths
         self.max_depth = max_depth
+        self.float_mode = "uf"
         self.solver = z3.Solver()
         self.functions_executed = set()
         self.callees_modelled = set()
@@ -914,6 +915,8 @@ class Engine:
             return r if name == "Eq" else z3.Not(r)
         if isinstance(a, (Opaque, Agg, FnItem)) or isinstance(b, (Opaque, Agg, FnItem)):
             raise Unsupported(f"binop {name} on {a}, {b}")
+        if (ty or "").strip() in ("f64", "f32") and z3.is_bv(a) and z3.is_bv(b):
+            return self.float_binop(name, a, b, ty.strip())
         w, signed = self.int_info(ty)
         if z3.is_bool(a) and z3.is_bool(b):
             return {"Eq": a == b, "Ne": a != b, "BitAnd": z3.And(a, b), "BitOr": z3.Or(a, b), "BitXor": z3.Xor(a, b)}[name]
@@ -964,6 +967,34 @@ class Engine:
                 ov = z3.Not(z3.BVMulNoOverflow(a, b, signed))
             return Agg({0: r, 1: ov})
         raise Unsupported(f"binop {name}")
+
+    def float_binop(self, name, a, b, ty):
+        if self.float_mode == "uf" and name in ("Add", "Sub", "Mul", "Div"):
+            # float arithmetic as an uninterpreted function of the operand bits: the properties decided here depend only
+            # on *which* operands are combined, and hold for every function (in particular IEEE arithmetic)
+            w = a.size()
+            fn = z3.Function(f"f{name.lower()}{w}", z3.BitVecSort(w), z3.BitVecSort(w), z3.BitVecSort(w))
+            return fn(a, b)
+        srt = z3.Float64() if ty == "f64" else z3.Float32()
+        fa, fb = z3.fpBVToFP(a, srt), z3.fpBVToFP(b, srt)
+        rm = z3.RNE()
+        if name in ("Add", "Sub", "Mul", "Div"):
+            r = {"Add": z3.fpAdd, "Sub": z3.fpSub, "Mul": z3.fpMul, "Div": z3.fpDiv}[name](rm, fa, fb)
+            # NaN results: hardware keeps some payload; the encoding uses one canonical NaN (documented assumption)
+            return z3.fpToIEEEBV(r)
+        if name == "Eq":
+            return z3.fpEQ(fa, fb)
+        if name == "Ne":
+            return z3.Not(z3.fpEQ(fa, fb))
+        if name == "Lt":
+            return z3.fpLT(fa, fb)
+        if name == "Le":
+            return z3.fpLEQ(fa, fb)
+        if name == "Gt":
+            return z3.fpGT(fa, fb)
+        if name == "Ge":
+            return z3.fpGEQ(fa, fb)
+        raise Unsupported(f"float binop {name}")
 
     def discr_term(self, e):
         return bv(e.discr, 64) if isinstance(e.discr, int) else e.discr
